@@ -64,7 +64,16 @@ func loaderSuffix(c *Ctx) (string, bool) {
 		if w.site.Parent() != ld {
 			continue
 		}
+		blocks := append([]*ssa.BasicBlock{}, w.fn.Blocks...)
+		vh := valueHelpers(c.P)
 		for _, b := range w.fn.Blocks {
+			for _, in := range b.Instrs {
+				if call, ok := in.(*ssa.Call); ok && vh[call.Call.StaticCallee()] {
+					blocks = append(blocks, call.Call.StaticCallee().Blocks...) // the filter may sit in a value helper of the callback
+				}
+			}
+		}
+		for _, b := range blocks {
 			for _, in := range b.Instrs {
 				if call, ok := in.(*ssa.Call); ok {
 					if callee := call.Call.StaticCallee(); callee != nil && callee.Name() == "HasSuffix" && callee.Pkg != nil && callee.Pkg.Pkg.Path() == "strings" {
@@ -75,7 +84,7 @@ func loaderSuffix(c *Ctx) (string, bool) {
 				}
 				// filepath.Ext(name) == ".toml" is the same filter (see extAsSuffix)
 				if bo, ok := in.(*ssa.BinOp); ok && (bo.Op == token.EQL || bo.Op == token.NEQ) {
-					if t := NewFnView(c.P, w.fn).Term(bo); t != nil {
+					if t := NewFnView(c.P, b.Parent()).Term(bo); t != nil {
 						for t.Op == "unop" && t.Aux == "!" {
 							t = t.Args[0]
 						}
@@ -814,6 +823,9 @@ func ruleNotifyIff(c *Ctx, worker *ssa.Function, change *chanClass, suffix strin
 		return
 	}
 	inline := map[*ssa.Function]bool{}
+	for f := range valueHelpers(c.P) {
+		inline[f] = true // (a file-name test in a value helper is seen as its conditions)
+	}
 	sendInstr := map[ssa.Instruction]bool{}
 	for _, s := range change.Sends {
 		sendInstr[s.Instr] = true
